@@ -47,7 +47,32 @@ def ob_broadcast_unfiltered(run, o):
             o.check(K.mentions(t, lambda y: y[0] in ("param", "upvar") and (y[0] == "upvar" or y[1] == 2)), "Votor::broadcast|same-message", "the message sent is the one given", c.span, {"arg": mir.show(t)[:80]})
 
 
+def ob_bundle_admissible_anywhere(run, oid):
+    """'a node that receives only this bundle reaches the same finalized slot' - for any finalized slot of the sender"""
+    prog = run.program("lib")
+    o = run.ob(oid, "Pool::add_cert admits a certificate whatever the distance between its slot and the receiver's own finalized slot",
+               "the recovery bundle carries the sender's highest finalization certificates: a receiver that refuses certificates more than a window ahead of ITS finalized slot "
+               "(a fresh node: slot 0) can never catch up from the bundle of a node that is further ahead", floor=1)
+    fam = prog.family("<" + PI + " as " + POOL + "Pool>::add_cert")
+    if not fam:
+        o.missing("Pool::add_cert")
+        return o
+    n = 0
+    for b in fam:
+        for c in b.calls():
+            if not c.name.endswith("add_valid_cert"):
+                continue
+            n += 1
+            ub = [a for a in G.guard_atoms(b, c.bb, prog) if a[0] == "lt" and a[2] is True and len(a[1]) == 2 and K.mentions_call(a[1][0], "::slot") and K.mentions_call(a[1][1], "finalized_slot")]
+            o.check(not ub, "Pool::add_cert|no-upper-bound-relative-to-own-finalized-slot", "no `slot < finalized_slot() + window` test stands before the certificate is admitted", c.span,
+                    {"bound": G.atoms_show(ub)[:1]})
+    if n == 0:
+        o.missing("add_valid_cert call in Pool::add_cert")
+    return o
+
+
 def check(run):
+    ob_bundle_admissible_anywhere(run, "O18.11")
     # "its own votes for later slots": get_own_votes can only hand over what the pool stored - every vote given to SlotState::add_vote is recorded, whatever
     # certificates the slot already holds
     from . import C04 as _C04r
